@@ -4,7 +4,7 @@
    precision, skipped exactly when the model skips. *)
 From Coq Require Import List Bool Arith.
 Import ListNotations.
-From CR Require Import Model.Writers Model.WritersSrc Gen.Src_writers.
+From CR Require Import Model.Writers Proofs.Writers Model.WritersSrc Gen.Src_writers.
 
 Section Eq.
   Variable A : Type.
@@ -71,6 +71,37 @@ Section Eq.
       destruct (lookup w (writers A key value node bytes s)) as [ws|]; try reflexivity.
     - rewrite src_write_is_model. reflexivity.
     - rewrite src_write_scenario_is_model. reflexivity.
+  Qed.
+
+  (* histories run with the parsed bodies *)
+  Definition src_run (h : list (op A)) (s : world) : world := fold_left (fun s o => fst (src_step s o)) h s.
+  Lemma src_run_is_model h : forall s,
+    src_run h s = run A key value node bytes key_eqb header objects problems ser_xml pb_header pb_objects pb_problems
+                      ser_pb repaired h s.
+  Proof.
+    induction h as [|o h IH]; intro s; [reflexivity|].
+    unfold src_run, run. cbn [fold_left]. rewrite src_step_is_model. exact (IH _).
+  Qed.
+
+  (* the main C15 statement, about the parsed bodies: after any history, a write that is not skipped writes the rendering
+     of the writer's own inputs, leaves every other file and every writer's inputs alone *)
+  Theorem src_write_history_independent :
+    forall (h : list (op A)) (s0 : world) w path m f p a (pp : bool),
+      inputs_of A h w (inputs_in A key value node bytes s0 w) = Some (f, p, a) ->
+      let s := src_run h s0 in
+      skips (file_exists A key value node bytes path s) m = false ->
+      let (s', o) := src_step s (if pp then Write w path m else WriteScenario w path m) in
+      o = OWritten path (render A key value node bytes key_eqb header objects problems ser_xml pb_header pb_objects
+                                pb_problems ser_pb f p a pp) /\
+      lookup path (files A key value node bytes s') =
+        Some (render A key value node bytes key_eqb header objects problems ser_xml pb_header pb_objects pb_problems
+                     ser_pb f p a pp) /\
+      (forall q, q <> path -> lookup q (files A key value node bytes s') = lookup q (files A key value node bytes s)) /\
+      (forall w', inputs_in A key value node bytes s' w' = inputs_in A key value node bytes s w').
+  Proof.
+    intros h s0 w path m f p a pp Hin. cbv zeta. rewrite src_run_is_model, src_step_is_model.
+    exact (write_history_independent A key value node bytes key_eqb header objects problems ser_xml pb_header pb_objects
+             pb_problems ser_pb h s0 w path m f p a pp Hin).
   Qed.
 
   Lemma src_forms : src_init = InitSetsPrecision /\ src_policy = PolicyStd.
